@@ -27,6 +27,18 @@ T = {
  "C07_2": ("C07","fast/code.go popDefer no longer clears EFStartDefer","a deferred call to a compiled function followed by a helper that calls recover()","missed at first (harness was under C12 only); caught by VH_C07_compiledDeferredCall, VH_C07_pushPopDefer"),
  "C12_3": ("C12","fast/code.go rundefer calls maybeRepanic unconditionally","a function with a defer returning normally in an evaluation after one aborted by a panic","missed at first; caught after adding probe 0 to VH_C12_abortedByPanic"),
  "C12_4": ("C12","fast/repl.go RunExpr restores CurrEnv without defer","an Eval aborted by a panic leaves Run.CurrEnv pointing at dead frames","missed at first; caught after adding VH_C12_runExprAborted"),
+ "C27_1": ("C27","fast/repl.go Interp.Read: comment-only chunk counted as one line","a multi-line block comment alone in a chunk, then an error in a later chunk","caught: quick, VH_C27_replCommentOnly (+replEOF path)"),
+ "C27_2": ("C27","fast/repl.go ParseEvalPrint: afterEval deferred after Cmd(), so consumed command/package chunks are not counted","a package clause or :command line before the error","missed at first (Cmd model was the identity); caught after adding VH_C27_replCommandChunk"),
+ "C27_3": ("C27","go/etoken/fileset.go File.Source indexes with pos.Line instead of pos.Line - f.line","Source() on a file added with a non-zero starting line","caught: quick, VH_C27_fileOffset"),
+ "C28_1": ("C28","go/typeutil/predicates.go Chan case: direction matches when x is bidirectional","chan types with a bidirectional left operand","caught: quick, VH_C28_pair_chan"),
+ "C28_2": ("C28","go/typeutil/map.go hashFor Struct adds the field's package path","structs whose exported fields belong to different packages","missed at first (fields had no package); caught after adding package/exported-name variation: VH_C28_pair_struct"),
+ "C28_3": ("C28","go/typeutil/map.go Map.Set stops scanning at the first tombstone","two non-identical keys in one bucket, delete the earlier, set the later again","missed at first (no delete-then-set sequences); caught after extending the map harness: VH_C28_map_array"),
+ "C05_1": ("C05","fast/switch2.go switchGotoSlice int16: range guard replaced by idx < len(slice)","dense int16 switch, tag below the smallest case","caught: quick, VH_C05_switchGoto_int16"),
+ "C05_2": ("C05","fast/statement.go jumpOut default branch loops one frame too far","break/continue/goto leaving >= 3 nested blocks with locals","missed at first; caught after adding VH_C05_jumpOut"),
+ "C05_3": ("C05","fast/statement.go Comp.If: else-branch truncation condition inverted","if with a constant condition and an else branch","caught: quick, VH_C05_if"),
+ "C06_1": ("C06","fast/compile.go MarkUsedByClosure stops at the first function-body frame without marking it","closure created in a nested block, used after the creating call returned","missed at first (chain frames had no Caller); caught after making Caller symbolic: VH_C06_markUsedByClosure"),
+ "C06_2": ("C06","fast/address.go Var.Address upn==2/int32 marks the intermediate frame","&x of an int32 two blocks below the function body, then frame reuse","caught: quick, VH_C06_Address_int32_I"),
+ "C06_3": ("C06","fast/compile.go freeEnv keeps the slot array of the frame stored in the last pool slot","exactly 31 frames pooled when a frame with an escaped slot address is freed","caught: quick, VH_C06_free (pool size cap-1)"),
 }
 for k,(prop,what,needs,res) in T.items():
     d='/verif/seeded/'+k
